@@ -48,8 +48,25 @@ def record(case, ok, nontrivial_key=None, detail=None, fingerprint=None):
         nontrivial.add(_h(nontrivial_key))
         if len(samples) < MAX_SAMPLES:
             samples.append(case)
-    if not ok and len(failures) < MAX_FAILURES:
-        failures.append({"case": case, "detail": detail, "fingerprint": fingerprint})
+    if not ok:
+        n_fp = sum(1 for f in failures if f["fingerprint"] == fingerprint)
+        if (len(failures) < MAX_FAILURES and n_fp < 2) or (n_fp == 0 and len(failures) < 4 * MAX_FAILURES):
+            failures.append({"case": case, "detail": detail, "fingerprint": fingerprint})
+
+
+_known = None
+
+
+def is_known(fingerprint):
+    """fingerprint listed as status 'known' in /verif/known_findings.json (read-only): harnesses keep exploring past it"""
+    global _known
+    if _known is None:
+        try:
+            with open("/verif/known_findings.json") as f:
+                _known = set(x["fingerprint"] for x in json.load(f).get("findings", []) if x.get("status") == "known")
+        except OSError:
+            _known = set()
+    return fingerprint in _known
 
 
 def in_shard(x):
